@@ -60,6 +60,10 @@ def plan(tier, seed):
     items = [{"kind": "grid", "cert": c, "exhaustive": "full grid cert_reqs x check_hostname x anchors(option/env) x certificate x name x route"}
              for c in CERT_ISSUER]
     items.append({"kind": "ws_plain", "exhaustive": "ws:// never wrapped, for every sslopt combination"})
+    for pi in range(4):
+        items.append({"kind": "concurrent_sweep", "pair": pi, "step": 2 if tier == "quick" else 1,
+                      "exhaustive": "two connections at once: the thread with default options pre-empted at every traced line of its connect() "
+                                    "in favour of a thread that relaxes a check (4 option pairs)" if tier != "quick" else None})
     items.append({"kind": "sslver", "exhaustive": "ssl_version {PROTOCOL_TLS, TLSv1_2, TLS_CLIENT} x certificate x name x cert_reqs x check_hostname x anchors"})
     items.append({"kind": "sysstore", "exhaustive": "system trust store holding the sim CA x certificate x name x cert_reqs x check_hostname x {no anchor option, foreign CA file}"})
     items.append({"kind": "concurrent_pairs", "exhaustive": None})
@@ -103,6 +107,17 @@ def expand(item, seed):
                         for pol in ({"kind": "prob", "p_line": 1 / 8, "p_call": 0.3}, {"kind": "pct", "d": 2, "len": 2500}):
                             yield {"concurrent": [_sc(sys_store=store, **vc), _sc(host="good.sim.test", cert="good", sys_store=store, **rx)],
                                    "policy": pol, "seed": 100 + sd}
+    elif k == "concurrent_sweep":
+        relaxed, victim = [(dict(check_hostname=False), dict(host="other.sim.test", cert="good")),
+                           (dict(cert_reqs="NONE"), dict(host="other.sim.test", cert="foreign-good")),
+                           (dict(check_hostname=False), dict(host="other.sim.test", cert="wild")),
+                           (dict(cert_reqs="NONE"), dict(host="a.wild.sim.test", cert="good"))][item["pair"]]
+        base = {"concurrent": [_sc(sys_store="sim_ca", **victim), _sc(host="good.sim.test", cert="good", sys_store="sim_ca", **relaxed)], "seed": 77}
+        ref = run(dict(base, policy={"kind": "at", "tid": 1, "k": -1, "rand_block": False}))
+        n = int((ref.info.get("lines") or {}).get(1, 0))
+        for kk in range(1, n + 1):
+            if item["step"] == 1 or kk % item["step"] == 0:
+                yield dict(base, policy={"kind": "at", "tid": 1, "k": kk, "rand_block": False})
     elif k == "sysstore":
         for cert in CERT_ISSUER:
             for host in HOSTS:
@@ -323,7 +338,7 @@ def _run_concurrent(sc, choices):
 
         ths = [seams.SimThread(target=work, args=(i,), name=f"connector{i}") for i in range(2)]
         try:
-            if policy.get("kind") in ("prob", "pct"):
+            if policy.get("kind") in ("prob", "pct", "at"):
                 w.k.start_tracing()
             for t in ths:
                 t.start()
@@ -334,6 +349,7 @@ def _run_concurrent(sc, choices):
         finally:
             if w.k.tracing:
                 w.k.stop_tracing()
+            res.info["lines"] = {t.tid: t.lines for t in w.k.threads}
     res.absorb(w, exclude_kinds=("send", "recv", "deliver", "recv_call"))
     for i, st in enumerate(steps):
         want_ok, contradictory, cell = _expect(st)
